@@ -4,6 +4,8 @@ import itertools, json, os, re, sys
 ROOT = os.path.dirname(os.path.dirname(os.path.abspath(__file__)))
 sys.path.insert(0, ROOT)
 from tools import framework
+from tools.extract import run_all
+run_all.main()
 from tools.harness import common, streams
 from tools.props import c02
 
